@@ -1065,6 +1065,7 @@ def variants_oracle():
     from rsocket.streams.empty_stream import EmptyStream
     out = []
     loop = _a.new_event_loop()
+    old_disable = logging.root.manager.disable
     logging.disable(logging.CRITICAL)        # every rejected request is logged with a traceback by the library
     try:
         ran = []
@@ -1172,6 +1173,6 @@ def variants_oracle():
                     out.append({'what': 'a request-response handler raising %s was answered with %r instead of an error' % (en, res),
                                 'variants': True})
     finally:
-        logging.disable(logging.NOTSET)
+        logging.disable(old_disable)
         loop.close()
     return out
